@@ -106,11 +106,16 @@ def make_vec(cls, values):
     return cls(**{k: float(values[k]) for k in values})
 
 
-def cov_from_matrix(cls, P_by_name, names):
-    """Covariance instance whose (a, b) entry is P_by_name[names.index(a), names.index(b)]."""
+def cov_from_matrix(cls, P_by_name, names, dtype=None):
+    """Covariance instance whose (a, b) entry is P_by_name[names.index(a), names.index(b)]; dtype hands the
+    matrix over as another numpy type (the values must be representable in it)."""
     lay = names_of(cls)
     idx = [names.index(n) for n in lay]
     data = np.array(P_by_name, dtype=float)[np.ix_(idx, idx)]
+    if dtype is not None:
+        conv = data.astype(dtype)
+        assert np.array_equal(conv.astype(float), data), "covariance not representable in the requested dtype"
+        return cls.from_data(conv)
     return cls.from_data(data.copy())
 
 
